@@ -112,8 +112,8 @@ def addr(h):
 
 
 def mk_utxo(u):
-    return UTxO(TransactionInput.from_primitive([bytes.fromhex(u['t']), u['i']]),
-                TransactionOutput(addr(u['a']), Value(u['c'], mk_ma(u['m']))))
+    return wire(UTxO(TransactionInput.from_primitive([bytes.fromhex(u['t']), u['i']]),
+                     TransactionOutput(addr(u['a']), Value(u['c'], mk_ma(u['m'])))))
 
 
 def cred(c, cls=StakeCredential):
